@@ -111,7 +111,7 @@ fn main() {
                     let mut agg = { let g = sh.lock().unwrap(); Agg::new(g.agg.max_samples - g.agg.samples.len().min(g.agg.max_samples)) };
                     let r = if arms::solver_arm_opts(&arm).is_some() { arms::run_solver_arm(&arm, seed, i, &mut agg, &pre) }
                         else if arm.starts_with("par-preempt-sweep") { arms::run_preempt_sweep(&arm, seed, i, &mut agg, &pre) }
-                        else if arm.starts_with("seq-sweep") { arms::run_seq_sweep(&arm, seed, i, &mut agg, None) }
+                        else if arm.starts_with("seq-sweep") || arm == "par-sweep" { arms::run_seq_sweep(&arm, seed, i, &mut agg, None) }
                         else if arm.starts_with("ex-") { ddosim::exgen::run_example_arm(&arm, seed, i, &mut agg, None).unwrap_or_else(|| { eprintln!("unknown example arm {arm}"); std::process::exit(2) }) }
                         else { history::run_history_arm(&arm, seed, i, &mut agg).unwrap_or_else(|| { eprintln!("unknown arm {arm}"); std::process::exit(2) }) };
                     { let mut g = sh.lock().unwrap(); g.agg.merge(agg); g.run_started = None; }
@@ -144,7 +144,7 @@ fn main() {
                     format!("{:016x}", ddosim::agg::hash_json(&out))
                 } else {
                     let mut agg = Agg::new(0);
-                    let r = if arm.starts_with("seq-sweep") { arms::run_seq_sweep(&arm, seed, i, &mut agg, None) } else { history::run_history_arm(&arm, seed, i, &mut agg).flatten() };
+                    let r = if arm.starts_with("seq-sweep") || arm == "par-sweep" { arms::run_seq_sweep(&arm, seed, i, &mut agg, None) } else { history::run_history_arm(&arm, seed, i, &mut agg).flatten() };
                     format!("{:016x}", ddosim::agg::hash_json(&(r.map(|x| x.violations), &agg.counters)))
                 };
                 println!("{i} {line}");
@@ -179,7 +179,7 @@ fn replay_payload(p: &serde_json::Value, agg: &mut Agg) -> Option<ViolationRecor
         "seq-sweep" => { let sc: solve::Scenario = serde_json::from_value(p["scenario"].clone()).expect("bad scenario"); arms::run_seq_sweep(&sc.arm.clone(), sc.seed, 0, agg, Some(&sc)) }
         "seed" => {
             let arm = p["arm"].as_str().unwrap().to_string(); let seed = p["seed"].as_u64().unwrap();
-            if arms::solver_arm_opts(&arm).is_some() { arms::run_solver_arm(&arm, seed, 0, agg, &|_| {}) } else if arm.starts_with("seq-sweep") { arms::run_seq_sweep(&arm, seed, 0, agg, None) } else { history::run_history_arm(&arm, seed, 0, agg).flatten() }
+            if arms::solver_arm_opts(&arm).is_some() { arms::run_solver_arm(&arm, seed, 0, agg, &|_| {}) } else if arm.starts_with("seq-sweep") || arm == "par-sweep" { arms::run_seq_sweep(&arm, seed, 0, agg, None) } else { history::run_history_arm(&arm, seed, 0, agg).flatten() }
         }
         "example" => ddosim::exgen::run_example_arm(p["arm"].as_str().unwrap_or(""), 0, 0, agg, Some(p)).flatten(),
         _ => history::replay_history(p, agg),
